@@ -3,15 +3,18 @@
 
   tools/seedtest.py <name> [--props C01,C05] [--keep]
 
-The patch is applied to /repo with `git apply`, the quick tier of every check is run from a scratch copy of /verif
-(so that the regenerated Gen/*.lean and the lake build do not disturb the working copy), and the patch is undone with
-`git -C /repo checkout -- .` whatever happens.  The demonstration program is built against the original and the
-patched header.  Results go to seeded/<name>/result.json.  Never commits anything to /repo."""
+By default the patch is applied to a scratch git worktree of /repo (VERIF_REPO points the checks at it) so that several
+seeds can be evaluated at once and /repo is never touched; with --in-repo it is applied to /repo itself with
+`git apply` and undone with `git -C /repo checkout -- .` whatever happens (the procedure of the brief).  The quick tier
+of every check is run from a scratch copy of /verif (so that the regenerated Gen/*.lean and the lake build do not
+disturb the working copy).  The demonstration program is built against the original and the patched header.  Results
+go to seeded/<name>/result.json.  Never commits anything to /repo."""
 import json, os, re, shutil, subprocess, sys, time
 
 HERE = os.path.dirname(os.path.abspath(__file__))
 VERIF = os.path.dirname(HERE)
 SCRATCH = '/tmp/vseed/verif'
+REPO = '/repo'
 
 
 def sh(cmd, cwd=None, timeout=7200, env=None):
@@ -28,7 +31,7 @@ def demo(name, meta):
     flags = ' '.join(t for t in cmd.split() if t.startswith('-') and not t.startswith('-I') and t != '-o')
     flags = re.sub(r'-o\s+\S+', '', flags)
     exe = '/tmp/vseed/demo_' + name
-    rc, out = sh('g++ %s -I /repo/source/include %s -o %s' % (flags or '-std=c++17', src, exe), timeout=600)
+    rc, out = sh('g++ %s -I %s/source/include %s -o %s' % (flags or '-std=c++17', REPO, src, exe), timeout=600)
     if rc != 0:
         return dict(build_rc=rc, out=out[-1500:])
     rc, out = sh(exe, timeout=600, env=dict(os.environ, ASAN_OPTIONS='detect_leaks=1'))
@@ -47,15 +50,27 @@ def main():
     ids = [c['property_id'] for c in man['checks']]
     if props:
         ids = [i for i in ids if i in props]
-    rc, out = sh('git -C /repo status --porcelain')
-    if out.strip():
-        print('refusing: /repo is not clean:\n' + out)
-        return 2
+    global REPO, SCRATCH
+    in_repo = '--in-repo' in sys.argv
     os.makedirs('/tmp/vseed', exist_ok=True)
+    if in_repo:
+        rc, out = sh('git -C /repo status --porcelain')
+        if out.strip():
+            print('refusing: /repo is not clean:\n' + out)
+            return 2
+    else:
+        REPO = '/tmp/vseed/repo-' + name
+        SCRATCH = '/tmp/vseed/verif-' + name
+        sh('git -C /repo worktree remove --force ' + REPO)
+        rc, out = sh('git -C /repo worktree add --detach %s HEAD' % REPO)
+        if rc != 0:
+            print(out)
+            return 2
     sh('rsync -a --delete --exclude .git --exclude out /verif/ %s/' % SCRATCH)
+    envx = dict(os.environ, VERIF_SEED='1', VERIF_REPO=REPO)
     res = dict(name=name, target=meta.get('property'), summary=meta.get('summary'), started=time.strftime('%Y-%m-%dT%H:%M:%SZ', time.gmtime()), checks={})
     res['demo_original'] = demo(name, meta)
-    rc, out = sh('git -C /repo apply ' + patch)
+    rc, out = sh('git -C %s apply %s' % (REPO, patch))
     if rc != 0:
         print('patch does not apply:', out)
         return 2
@@ -63,7 +78,7 @@ def main():
         res['demo_patched'] = demo(name, meta)
         for pid in ids:
             t0 = time.time()
-            rc, out = sh([os.path.join(SCRATCH, 'check'), pid, '--tier', 'quick'], cwd=SCRATCH, env=dict(os.environ, VERIF_SEED='1'))
+            rc, out = sh([os.path.join(SCRATCH, 'check'), pid, '--tier', 'quick'], cwd=SCRATCH, env=envx)
             lines = [l for l in out.split('\n') if l.startswith(('VIOLATION', 'OK ', 'KNOWN-FINDING'))]
             first = next((l for l in out.split('\n') if l.startswith('VIOLATION')), None)
             detail = ''
@@ -75,10 +90,18 @@ def main():
             if detail:
                 print('    ' + detail.replace('\n', '\n    ')[:400], flush=True)
     finally:
-        sh('git -C /repo checkout -- .')
+        if in_repo:
+            sh('git -C /repo checkout -- .')
+        else:
+            sh('git -C /repo worktree remove --force ' + REPO)
+            if '--keep' not in sys.argv:
+                shutil.rmtree(SCRATCH, ignore_errors=True)
     res['caught_by'] = sorted(p for p, r in res['checks'].items() if r['rc'] == 1)
     res['finished'] = time.strftime('%Y-%m-%dT%H:%M:%SZ', time.gmtime())
-    json.dump(res, open(os.path.join(d, 'result.json'), 'w'), indent=1)
+    if not props:
+        json.dump(res, open(os.path.join(d, 'result.json'), 'w'), indent=1)
+    else:
+        json.dump(res, open(os.path.join(d, 'result.partial.json'), 'w'), indent=1)
     print('caught by:', res['caught_by'])
     rc, out = sh('git -C /repo status --porcelain')
     print('repo clean' if not out.strip() else 'REPO NOT CLEAN: ' + out)
